@@ -26,7 +26,7 @@ na = [{"property_id": p["id"], "reason": NOT_APPLICABLE.get(p["id"], "no check b
       for p in props if p["id"] not in CHECKS]
 m = {
     "version": 1,
-    "setup_cmd": "./vbuild wild",
+    "setup_cmd": "./vbuild wild wild-b2 engines",
     "hooks": {
         "guard": "cargo feature `verif` (libwild, forwarded by wild-linker; `verif-b2` implies it)",
         "enable": "./vbuild: cargo build -p wild-linker --features verif (and --features verif-b2 for the 2-bucket string-merge build) from /repo into /verif/.build",
@@ -35,6 +35,9 @@ m = {
         "add_only": True,
     },
     "engines": [
+        {"name": "unitx", "path": "engines/ + lib/unitx.py", "serves_properties": ["C12", "C13", "C29"], "kind_free_text": "Rust harness enumerating bounded input domains of real linker-utils/libwild functions against independent reference tables"},
+        {"name": "tinyprog", "path": "checks/*.py + lib/{wildrun,elfread,elfgen,relmatrix,imgsim,x86mini,symtabfam,bindkit}.py", "serves_properties": ["C01","C02","C03","C04","C05","C07","C08","C09","C10","C14","C15","C16","C22","C23","C24","C25","C30","C31","C32","C33","C36","C37"], "kind_free_text": "bounded-exhaustive program/input family generators, independent ELF reader, reference models, in-process wild server"},
+        {"name": "faultenum", "path": "lib/faultenum.py, lib/liverun.py, checks/c17-c21,c35", "serves_properties": ["C17","C18","C19","C20","C21","C35"], "kind_free_text": "phase-point fault / pause injection and history enumeration on real wild processes"},
         {"name": "wsched", "path": "lib/wsched.py + /repo/libwild/src/verif.rs", "serves_properties": ["C39", "C40", "C26", "C06", "C03"], "kind_free_text": "controlled token-passing scheduler compiled into wild + stateless DFS explorer with preemption/deviation bounding"},
     ],
     "checks": checks,
